@@ -27,11 +27,10 @@ Fixpoint remove_items (s : schema) (extract : bool) (tr : typeref) (toRemove : p
                      match l with
                      | [] => []
                      | item :: rest =>
-                         (* errors of listItemToPathElement are ignored: the zero
-                            PathElement is not a member of any set *)
-                         let e := list_item_to_pe s t item in
-                         let has := match e with Some e => ps_has [e] toRemove | None => false end in
-                         let subset := match e with Some e => ps_with_prefix e toRemove | None => ps_empty_set end in
+                         (* errors of listItemToPathElement are ignored (remove.go:83) *)
+                         let e := list_item_pe_or_zero s t item in
+                         let has := ps_has [e] toRemove in
+                         let subset := ps_with_prefix e toRemove in
                          if has && negb extract then go rest
                          else if has && ps_empty subset then
                            (* extracting an item that is selected with nothing beneath it *)
